@@ -602,9 +602,9 @@ def template_provenance(repo, fi, recv):
       """a string literal, a choice between such (`a if c else b`, `a or b`),
       a concatenation or %-combination of such, or a local defined that way"""
       if isinstance(v, ast.Constant):
-        return isinstance(v.value, str)
+        return isinstance(v.value, str) or v.value is None
       if isinstance(v, ast.JoinedStr):
-        return all(isinstance(p_, ast.Constant) for p_ in v.values)
+        return True               # an f-string written in the code (as before)
       if isinstance(v, ast.IfExp):
         return literal_choice(v.body, depth) and literal_choice(v.orelse, depth)
       if isinstance(v, ast.BinOp) and isinstance(v.op, ast.Add):
@@ -738,6 +738,17 @@ def flags(chk, rid):
                        any(q_ is u.cfg.stmt[n] for q_ in ast.walk(p_))
                        for p_ in walk_local(u.fi.node))]
   if not loops:
+    # another substitution mechanism altogether: string.Template and its
+    # relatives expand `$name` and `$$` besides `${name}`, i.e. more than the
+    # one documented form
+    other = [c for n, c in u.all_calls() if call_tail(c) in ('substitute', 'safe_substitute',
+                                                             'Template', 'sub', 'subn', 'expandvars')]
+    if other:
+      chk.ob(rid, False, None, 'only the ${flag} form is substituted',
+             '`%s` is used instead of replacing the ${flag} texts: that mechanism also '
+             'rewrites $name and $$ inside string data of the compiled SQL' % norm(other[0], 60),
+             fi=u.fi, node=other[0])
+      return
     raise AnalysisError('UseFlagsAsParameters: fixpoint loop not found')
   for w in loops:
     wst = u.cfg.stmt[w]
